@@ -269,9 +269,23 @@ def run(ctx: Ctx):
     import tempfile
     us_i = np.linspace(0.0, 1.0, 41)
     for iv in (0, 1, 2, 3, 4):
-        for spelling in ("int", "str", "toml"):
+        for spelling in ("int", "str", "toml", "cli"):
             try:
-                if spelling == "int":
+                if spelling == "cli":
+                    # the command line: `nuspacesim create-config <file> --powerspectrum <index> <lower> <upper>`, read back
+                    from click.testing import CliRunner
+                    from nuspacesim.apps.cli import cli as nss_cli
+                    with tempfile.TemporaryDirectory() as td:
+                        fn = os.path.join(td, "cli.toml")
+                        r_ = CliRunner().invoke(nss_cli, ["create-config", fn, "--powerspectrum", str(iv), "7", "11"])
+                        if r_.exit_code != 0:
+                            raise RuntimeError(f"create-config exit code {r_.exit_code}: {r_.exception!r}")
+                        spec_i = nss.config.config_from_toml(fn).simulation.spectrum
+                    if getattr(spec_i, "id", None) != "powerspectrum" or float(spec_i.index) != float(iv) or float(spec_i.lower_bound) != 7.0 or float(spec_i.upper_bound) != 11.0:
+                        ctx.violation("nuspacesim create-config", "powerspectrum-option-not-the-configured-spectrum",
+                                      f"--powerspectrum {iv} 7 11 configures {spec_i!r}", {"index": iv, "configured": spec_i.model_dump()})
+                        continue
+                elif spelling == "int":
                     spec_i = Simulation.PowerSpectrum(index=iv, lower_bound=7, upper_bound=11)
                 elif spelling == "str":
                     spec_i = Simulation.PowerSpectrum(index=str(iv), lower_bound="7", upper_bound="11")
@@ -302,6 +316,34 @@ def run(ctx: Ctx):
                               {**case, "u": float(us_i[k]), "log_e_nu": float(y[k]), "F": float(F[k])})
             if not close(float(out[1]) * float(out[2]), 1.0, 1e-12):
                 ctx.violation("Spectra.__call__", "norm*sum!=1", "spec_norm * sum_spec_weights != 1", {**case, "norm": float(out[1]), "sum": float(out[2])})
+    # ------------------------------------------------------------------ one long-lived Spectra object while the configured spectrum is
+    # replaced (what the front ends do: `config.simulation.spectrum = …`): every call samples the spectrum configured when it is made
+    cfg_h = nss.NssConfig()
+    cfg_h.simulation.spectrum = Simulation.MonoSpectrum(log_nu_energy=8.0)
+    sp_h = sm.Spectra(cfg_h)
+    us_h = np.linspace(0.0, 1.0, 33)
+    seq = [Simulation.MonoSpectrum(log_nu_energy=8.0), Simulation.PowerSpectrum(index=2.5, lower_bound=7.0, upper_bound=11.0),
+           Simulation.MonoSpectrum(log_nu_energy=9.5), Simulation.PowerSpectrum(index=1.0, lower_bound=6.0, upper_bound=12.0),
+           Simulation.PowerSpectrum(index=float(rng.uniform(0, 4)), lower_bound=6.5, upper_bound=10.0)]
+    for step, spec_h in enumerate(seq):
+        cfg_h.simulation.spectrum = spec_h
+        rec = _Uniform(us_h)
+        orig = np.random.uniform
+        np.random.uniform = rec
+        try:
+            with np.errstate(all="ignore"):
+                out_h = sp_h(len(us_h))
+        finally:
+            np.random.uniform = orig
+        fresh, exc_f, _ = call_real(nss, sm, nss.NssConfig(), spec_h, len(us_h), us_h)
+        ctx.case(("history", step, spec_h.id)); ctx.count("history_reconfigured_calls")
+        if exc_f is None and not (np.array_equal(np.asarray(out_h[0]), np.asarray(fresh[0])) and float(out_h[1]) == float(fresh[1]) and float(out_h[2]) == float(fresh[2])):
+            y_h = np.asarray(out_h[0], dtype=np.float64)
+            ctx.violation("Spectra.__call__", "samples-a-spectrum-that-is-no-longer-configured",
+                          "a Spectra object reused after the configured spectrum was replaced does not sample the spectrum now configured",
+                          {"step": step, "configured_now": spec_h.model_dump(), "sequence": [s_.model_dump() for s_ in seq[: step + 1]],
+                           "log_e_nu_head": y_h[:3].tolist(), "expected_head": np.asarray(fresh[0])[:3].tolist(), "norm_pair": [float(out_h[1]), float(out_h[2])]})
+            break
     # ------------------------------------------------------------------ diagnostics on: the optional result plots must not change what
     # is returned or stored (same uniform numbers -> same per-event energies, stored column = returned vector)
     os.environ.setdefault("MPLBACKEND", "Agg")
